@@ -150,11 +150,16 @@ def run(ctx):
         from ..dep import Deps as _Deps
         ap = c.methods["apply"]
         dap = _Deps(ap.node)
+        es_specs = []
         for es in [cc for cc in A.calls_in(ap.node) if A.call_attr(cc) == "einsum"]:
-            spec_ = A.const_value(es.args[0]) if es.args else None
-            if not isinstance(spec_, str) or "->" not in spec_:
+            a0 = A.expand_locals(ap.node, es.args[0]) if es.args else None
+            alts = [a0.body, a0.orelse] if isinstance(a0, ast.IfExp) else [a0]  # one literal, or one per arm of `x if unbatched else y`
+            vals = [A.const_value(x) if x is not None and A.is_const(x) else None for x in alts]
+            if not all(isinstance(v_, str) and "->" in v_ for v_ in vals):
                 ctx.unrecognised(r6, ap, es, "einsum without a literal subscript string")
                 continue
+            es_specs.extend((es, v_) for v_ in vals)
+        for es, spec_ in es_specs:
             ins, out = spec_.replace(" ", "").split("->")
             subs = ins.split(",")
             ops = es.args[1:]
